@@ -71,7 +71,7 @@ def gen_action(rng, kinds, msgs=True):
     kind = kinds[rng.randrange(len(kinds))]
     action = {'act': kind}
     if kind in ('pause', 'kill') and msgs:
-        action['msg'] = rng.choice([None, f'{kind}-{rng.randrange(3)}'])
+        action['msg'] = rng.choice([None, '', f'{kind}-{rng.randrange(3)}'])
     if kind == 'fail':
         action['msg'] = f'fail-{rng.randrange(3)}'
     if kind == 'callback':
